@@ -290,6 +290,10 @@ def run(tier, seed):
         raise core.MachineryError("model violates %s" % (r["violated"] or rc["violated"]))
     res.add_tlc("MC_C11(shapes)", r)
     res.add_tlc("MC_C11(control)", rc)
+    rl = tlc.run("MC_C11", "c11.mc.live", dict(MrVariant="code", Mode="control"), properties=["Termination"], spec="FairSpec", timeout=900)
+    if rl["violated"]:
+        raise core.MachineryError("control model: the MINRES loop does not always terminate")
+    res.add_tlc("MC_C11(liveness)", rl)
     rej = {}
     for v, mode, inv in (("check_every_iteration", "control", "InvCheckpoints"), ("no_extra_iterations", "control", "InvBudget"), ("keeps_shift_dim", "shapes", "InvShiftDim")):
         rv = tlc.run("MC_C11", "c11.mc.%s" % v, dict(MrVariant=v, Mode=mode), invariants=INVS, timeout=900)
